@@ -284,9 +284,9 @@ where
         let mut filtered_kmers = Vec::new();
         let mut removed = 0;
 
-        if filter_ambig_as_missing {
-            self.update_counts(true);
-        }
+        // Always recount: the stored counts may have been made by an earlier filter
+        // which treated ambiguous bases differently
+        self.update_counts(filter_ambig_as_missing);
 
         for count_it in self
             .variant_count
